@@ -1793,8 +1793,8 @@ static void vi(void)
 				continue;
 			}
 			cmd = term_cmd(&n);
-			if (strchr("!<>ACDIJOPRSXYacdioprsxy~", c) ||
-					(c == 'g' && strchr("uU~", k))) {
+			if (mod && (strchr("!<>ACDIJOPRSXYacdioprsxy~", c) ||
+					(c == 'g' && strchr("uU~", k)))) {
 				if (n + 1 < sizeof(rep_cmd)) {
 					memcpy(rep_cmd, cmd, n);
 					rep_len = n;
